@@ -502,4 +502,3 @@ func isPrefix(a, b []string) bool {
 	}
 	return true
 }
-
